@@ -21,7 +21,7 @@ enum { OP_CREATEMAT = 1, OP_CREATEDENSE, OP_STATINIT, OP_GETPERMC, OP_PREORDER, 
        OP_GSSV, OP_GSSVX, OP_DESTROY, OP_ABORT };
 
 typedef struct {
-    char ty; int n, nrhs, ldb; gmat_t g; double *bre, *bim;
+    char ty; int n, nrhs, ldb, ldx; gmat_t g; double *bre, *bim;
     int style, nr, colperm, equil, trans, refine, cond, symm; double u;
     int query_first, oos_mode, lwork_small; long fault_k;
     int nsteps, steps[8];
@@ -106,6 +106,7 @@ static void plan_gen(rng_t *r, int thorough, char ty, int stream, plan_t *p) {
     if (stream == 0 && rng_chance(r, 0.12) && p->style != ST_GSISX && p->n >= 2) { p->singular = 1; p->colperm = 0; p->nr = 0; p->u = 1.0; val = VAL_DIAGDOM; nonsing = 2; p->symm = 0; }
     if (stream == 1) { p->singular = 2; nonsing = rng_chance(r, 0.4) ? 0 : nonsing; if (rng_chance(r, 0.4)) val = VAL_SMALLINT; }
     if (risky && rng_chance(r, 0.4)) nonsing = rng_chance(r, 0.5) ? 0 : 1;
+    p->ldx = p->n + (rng_chance(r, 0.5) ? 0 : rng_int(r, 1, 3));     /* X's leading dimension is independent of B's */
     gmat_gen(r, p->n, p->n, pat, val, nonsing, cplx, &p->g);
     if (p->singular == 1) gmat_drop_row(&p->g, p->n - 1);
     if (p->singular == 2 && p->n >= 2) { int k = rng_int(r, 0, 2);
